@@ -17,7 +17,6 @@ ASSUME = [
     "objects are identified by the names the scenarios use; an object is moved only from top level and never with an asynchronous operation outstanding; an accept-into peer is not touched while its accept is pending (preconditions of the library)",
     "the wrap of the ephemeral counter (65534 -> 2000) and the exhaustion branch (port > 65530 -> address_in_use) are modelled in Lean and in the monitor but not exercised by the generator (they need > 63000 port-0 binds in one scenario)",
     "between the hand-over of a connection to an accept-into peer (SYN arrival) and the accept handler, the peer's state is not checked by the monitor (the trace does not show the hand-over instant)",
-    "whether a connect is refused by an acceptor whose listening flag survived a re-open (open() on an open listening acceptor does not reset it) is left to the correspondence leg: the property statement is silent about it",
 ]
 
 def spec_c11(impl, scn):
